@@ -96,6 +96,36 @@ def check(goal_neg_parts, timeout_ms=20000, use_coi=True, extra=()):
 PORTFOLIO_STATS = {}
 
 
+def _guess_model(s, timeout_ms):
+    import random
+    hints = ENGINE.input_hints
+    if not hints:
+        return None
+    names = set()
+    for a in s.assertions():
+        symbols_of(a, names)
+    names = sorted(n for n in names if n in hints)
+    if not names:
+        return None
+    rng = random.Random(len(names) * 7919 + ENGINE.nqueries)
+    for attempt, frac in enumerate((1.0, 1.0, 0.7, 0.5)):
+        s.push()
+        try:
+            for n in names:
+                if rng.random() <= frac:
+                    lo, hi = hints[n]
+                    val = Fraction(int((lo + (hi - lo) * rng.random()) * 64), 64)
+                    s.add(z3.Real(n) == z3.RealVal(str(val)))
+            s.set("timeout", max(300, min(1500, timeout_ms // 10)))
+            if str(s.check()) == "sat":
+                return s.model()
+        except z3.Z3Exception:
+            pass
+        finally:
+            s.pop()
+    return None
+
+
 def _portfolio(s, timeout_ms):
     """z3 is sensitive to term order on nonlinear queries: try (1) the default solver on a
     quarter of the budget, (2) simplify/solve-eqs/nlsat pipeline, (3) the same assertions
@@ -112,6 +142,13 @@ def _portfolio(s, timeout_ms):
     if r in ("sat", "unsat"):
         PORTFOLIO_STATS["default"] = PORTFOLIO_STATS.get("default", 0) + 1
         return r, (s.model() if r == "sat" else None)
+    # 1b counterexample guessing: pin (most of) the harness inputs to random rationals inside
+    # their hint ranges and let the solver decide the much smaller instance.  `sat` of the
+    # pinned instance is `sat` of the query (sound); anything else says nothing.
+    m = _guess_model(s, timeout_ms)
+    if m is not None:
+        PORTFOLIO_STATS["guessed"] = PORTFOLIO_STATS.get("guessed", 0) + 1
+        return "sat", m
     # 2 tactic pipeline
     try:
         t = z3.Then("simplify", "solve-eqs", "purify-arith", "qfnra-nlsat")
